@@ -609,6 +609,166 @@ def check_one_file(ctx, repos):
                           dict(kind=402, repo=show(r), line=line, model=m, code=c), nfi=True)
 
 
+# ----------------------------------------------------------------------------- nested repositories
+
+NEST_NAMES = [b"a", b"b", b"A", b"ab", b"a.b", b"a.txt", b"b.log", b"c.tmp", b"d.md", b"a-b", b"x.", b"keep", b"a b"]
+
+
+def gen_nested_pattern(rng, names):
+    """unanchored patterns only (rules above the search root; see the C05 finding ParentRuleRebase for anchored ones)"""
+    k = rng.random()
+    if k < 0.4:
+        p = esc(rng.choice(names))
+    elif k < 0.8:
+        p = rng.choice([b"*.txt", b"*.log", b"*.tmp", b"*.md", b"a*", b"*b", b"*.*", b"?", b"[ab]", b"*.", b"a?b", b"keep"])
+    else:
+        p = rng.choice([b"*", b"sub/", b"sub", b"d/"])
+    if rng.random() < 0.15:
+        p = b"!" + p
+    if rng.random() < 0.1:
+        p += b"/"
+    return p
+
+
+def gen_nested(rng):
+    """an outer repository containing an inner one (one or two directories down); .gitignore and .git/info/exclude in
+    both; files in the inner repository and in a sub-directory of it.  Only the inner repository's files decide."""
+    names = rng.sample(NEST_NAMES, rng.randint(3, 7))
+    mid = rng.choice([b"", b"", b"m"])
+    files = {}
+    for n in names:
+        where = rng.choice([b"", b"sub/", b"both"])
+        if where in (b"", b"both"):
+            files[n] = "f"
+        if where in (b"sub/", b"both"):
+            files[b"sub/" + n] = "f"
+    files.setdefault(b"sub/" + rng.choice(names), "f")
+    files.setdefault(rng.choice(names), "f")
+    if rng.random() < 0.3:
+        files[b"sub/d/" + rng.choice(names)] = "f"
+    pats = lambda lo, hi: [gen_nested_pattern(rng, names) for _ in range(rng.randint(lo, hi))]
+    return dict(mid=mid, files=files, outer_gitignore=pats(0, 2), outer_exclude=pats(1, 3),
+                inner_gitignore=pats(0, 3), inner_exclude=pats(0, 2), sub_gitignore=pats(0, 1),
+                mid_gitignore=pats(0, 1) if mid else [])
+
+
+def show_nested(c):
+    d = dict(c)
+    d["files"] = sorted(k.decode("latin1") for k in c["files"])
+    for k in ("outer_gitignore", "outer_exclude", "inner_gitignore", "inner_exclude", "sub_gitignore", "mid_gitignore"):
+        d[k] = [x.decode("latin1") for x in c[k]]
+    d["mid"] = c["mid"].decode("latin1")
+    return d
+
+
+def unshow_nested(d):
+    c = dict(d)
+    c["files"] = {k.encode("latin1"): "f" for k in d["files"]}
+    for k in ("outer_gitignore", "outer_exclude", "inner_gitignore", "inner_exclude", "sub_gitignore", "mid_gitignore"):
+        c[k] = [x.encode("latin1") for x in d[k]]
+    c["mid"] = d["mid"].encode("latin1")
+    return c
+
+
+def write_lines(path, lines):
+    os.makedirs(os.path.dirname(path), exist_ok=True)
+    open(path, "wb").write(b"".join(l + b"\n" for l in lines))
+
+
+def check_nested(ctx, cases):
+    """rg started inside an inner repository (at its top and in a sub-directory) vs git run at the same place: rules
+    of the outer repository (.gitignore, .git/info/exclude) and of directories between the two must not apply; the
+    inner repository's .gitignore / info/exclude (above the search root when started in sub/) must.  Oracle vs code
+    only: ignore files above the search root and info/exclude are outside the Coq model."""
+    base = tempfile.mkdtemp(dir=vlib.CACHE, prefix="c04n-")
+    try:
+        for idx, c in enumerate(cases):
+            outer = os.path.join(os.fsencode(base), b"o%d" % idx)
+            inner = os.path.join(outer, c["mid"], b"inner") if c["mid"] else os.path.join(outer, b"inner")
+            os.makedirs(os.path.join(inner, b"sub"), exist_ok=True)
+            env = git_env(base)
+            for repo in (outer, inner):
+                subprocess.run(["git", "init", "-q", os.fsdecode(repo)], env=env, stdin=subprocess.DEVNULL, check=True,
+                               stdout=subprocess.DEVNULL, stderr=subprocess.DEVNULL)
+            if c["outer_gitignore"]:
+                write_lines(os.path.join(outer, b".gitignore"), c["outer_gitignore"])
+            write_lines(os.path.join(outer, b".git", b"info", b"exclude"), c["outer_exclude"])
+            if c["mid"] and c["mid_gitignore"]:
+                write_lines(os.path.join(outer, c["mid"], b".gitignore"), c["mid_gitignore"])
+            if c["inner_gitignore"]:
+                write_lines(os.path.join(inner, b".gitignore"), c["inner_gitignore"])
+            write_lines(os.path.join(inner, b".git", b"info", b"exclude"), c["inner_exclude"])
+            if c["sub_gitignore"]:
+                write_lines(os.path.join(inner, b"sub", b".gitignore"), c["sub_gitignore"])
+            for f in c["files"]:
+                full = os.path.join(inner, f)
+                os.makedirs(os.path.dirname(full), exist_ok=True)
+                open(full, "wb").write(b"x\n")
+            for where in (b"", b"sub"):
+                cwd = os.path.join(inner, where) if where else inner
+                if where:
+                    # a search root that the repository itself ignores is searched anyway (an explicitly given root is
+                    # never skipped) while git lists nothing there: not a statement of the property
+                    q = subprocess.run(["git", "check-ignore", "-q", "sub"], cwd=inner, env=env, stdin=subprocess.DEVNULL,
+                                       stdout=subprocess.DEVNULL, stderr=subprocess.DEVNULL)
+                    if q.returncode == 0:
+                        ctx.cov["nested_root_ignored_skipped"] = ctx.cov.get("nested_root_ignored_skipped", 0) + 1
+                        continue
+                g = subprocess.run(["git", "ls-files", "--others", "--exclude-standard", "-z"], cwd=cwd, env=env,
+                                   stdin=subprocess.DEVNULL, stdout=subprocess.PIPE, stderr=subprocess.PIPE)
+                gfiles = sorted(x for x in g.stdout.split(b"\0") if x)
+                r = subprocess.run([vlib.RG, "--no-config", "--files", "--hidden", "--no-ignore-dot", "--no-ignore-global",
+                                    "-0", "--sort", "path"], cwd=cwd, env=env, stdin=subprocess.DEVNULL,
+                                   stdout=subprocess.PIPE, stderr=subprocess.PIPE)
+                rfiles = []
+                for x in r.stdout.split(b"\0"):
+                    if x.startswith(b"./"):
+                        x = x[2:]
+                    if x and x != b".git" and not x.startswith(b".git/"):
+                        rfiles.append(x)
+                rfiles.sort()
+                ctx.cov["nested_runs"] = ctx.cov.get("nested_runs", 0) + 1
+                hidden_by_inner = len(c["files"]) + 1 - len(gfiles) > 0
+                ctx.note_case(repr((show_nested(c), where)), hidden_by_inner)
+                if gfiles != rfiles:
+                    gs, rs = set(gfiles), set(rfiles)
+                    rep = dict(kind="nested", case=show_nested(c), started_in="inner/" + where.decode(),
+                               git=[x.decode("latin1") for x in gfiles], rg=[x.decode("latin1") for x in rfiles],
+                               rg_stderr=r.stderr.decode("latin1")[:300])
+                    feats = set()
+                    for k in ("inner_gitignore", "inner_exclude", "sub_gitignore"):
+                        for l in c[k]:
+                            feats |= line_features(l)
+                    if feats:
+                        ctx.known(sorted(feats)[0], "nested repositories %r" % (rep,))
+                        continue
+                    what = ("rg --files started inside a nested repository lists a different set of files than git there "
+                            "(ignore rules of the outer repository or of the inner one applied wrongly) "
+                            "[started in inner/%s outer exclude=%r outer .gitignore=%r inner exclude=%r inner .gitignore=%r "
+                            "git-only=%r rg-only=%r]" % (where.decode(), rep["case"]["outer_exclude"],
+                                                         rep["case"]["outer_gitignore"], rep["case"]["inner_exclude"],
+                                                         rep["case"]["inner_gitignore"],
+                                                         sorted(x.decode("latin1") for x in gs - rs)[:4],
+                                                         sorted(x.decode("latin1") for x in rs - gs)[:4]))
+                    _seen["nested"] = _seen.get("nested", 0) + 1
+                    if _seen["nested"] <= 3:
+                        ctx.violation(what, rep)
+            shutil.rmtree(outer, ignore_errors=True)
+    finally:
+        shutil.rmtree(base, ignore_errors=True)
+
+
+NESTED_CORPUS = [
+    dict(mid=b"", files={b"a.txt": "f", b"a.log": "f", b"a.tmp": "f", b"a.md": "f", b"sub/b.txt": "f", b"sub/b.log": "f",
+                         b"sub/b.tmp": "f", b"sub/b.md": "f"},
+         outer_gitignore=[], outer_exclude=[b"*.txt"], inner_gitignore=[b"*.tmp"], inner_exclude=[b"*.log"],
+         sub_gitignore=[], mid_gitignore=[]),
+    dict(mid=b"m", files={b"a": "f", b"keep": "f", b"sub/a": "f", b"sub/keep": "f", b"sub/d/a": "f"},
+         outer_gitignore=[b"a"], outer_exclude=[b"keep", b"sub/"], inner_gitignore=[], inner_exclude=[b"d/"],
+         sub_gitignore=[b"!a"], mid_gitignore=[b"*"]),
+]
+
+
 def check_line_class(ctx, cases):
     """kind 404: the executable class of the line-level theorem (gitignore_line_eq_git) must contain every line of
     the documented grammar the generators produce; a documented line outside the class means the theorem does not
@@ -703,6 +863,7 @@ def run(ctx):
     check_repos(ctx, repos)
     check_one_file(ctx, CORPUS + KNOWN_CORPUS + repos)
     names = [x for x in NAME_POOL]
+    check_nested(ctx, NESTED_CORPUS + [gen_nested(rng) for _ in range(ctx.count(40))])
     al = [(rng.random() < 0.2, gen_line(rng, names, rng.random() < 0.3)) for _ in range(ctx.count(600))]
     check_add_line(ctx, al)
     check_line_class(ctx, al + [(r["ci"], l) for r in CORPUS + repos for ls in r["ignores"].values() for l in ls])
@@ -717,6 +878,8 @@ def replay(ctx, data):
     r = data["replay"]
     if r.get("kind") == 403:
         check_add_line(ctx, [(r["ci"], r["text"].encode("latin1"))])
+    elif r.get("kind") == "nested":
+        check_nested(ctx, [unshow_nested(r["case"])])
     elif r.get("kind") == 404:
         check_line_class(ctx, [(r["ci"], r["text"].encode("latin1"))])
     elif "repo" in r:
